@@ -214,3 +214,18 @@ Theorem Base_rn_pow_cond : forall (R : rcfType), count_open_correct_premise R ->
   rn_denotes x a -> rn_pow fuel x n = Some z -> rn_denotes z (a ^+ n).
 Proof. exact: rn_pow_spec_sturm. Qed.
 Print Assumptions Base_rn_pow_cond.
+
+(* the equality test of the reference comparison (gcd, square-free part, Sturm count on the intersection of the isolating
+   intervals) is sound, and hence the full comparison rn_cmp - the operation by which every check compares libpoly's
+   numbers with the reference BY DENOTATION - computes the sign of a - b; COND on the interval Sturm count only
+   (compare Base_rn_cmp_cond above, which assumes the soundness of the equality test itself) *)
+Theorem Base_rn_eqb_sound_cond : forall (R : rcfType), count_open_correct_premise R ->
+  forall (x y : rnum) (a b : R), rn_denotes x a -> rn_denotes y b -> rn_eqb x y = true -> a = b.
+Proof. exact: rn_eqb_sound_cond. Qed.
+Print Assumptions Base_rn_eqb_sound_cond.
+
+Theorem Base_rn_cmp_sturm_cond : forall (R : rcfType), count_open_correct_premise R ->
+  forall (fuel : nat) (x y : rnum) (a b : R) (s : Z),
+  rn_denotes x a -> rn_denotes y b -> rn_cmp fuel x y = Some s -> zr s = Num.sg (a - b).
+Proof. exact: rn_cmp_spec_sturm. Qed.
+Print Assumptions Base_rn_cmp_sturm_cond.
